@@ -249,6 +249,10 @@ class TorchCalls(TorchOps):
                     out = replace(out, head=ListV(items=(hidx, pt[0]), kind="tuple"), tail=tail, tail_elem=out.elem)
                 return out
             return self.unk("enumerate", node)
+        if fn == "sorted" and not kwargs and isinstance(args[0], (SetV, ListV)) and args[0].items is not None and \
+                all(isinstance(x, (Const, TV)) and not (isinstance(x, Const) and isinstance(x.v, bool)) and self.const_int(x) is not None for x in args[0].items):
+            vs_ = [self.const_int(y) for y in args[0].items]
+            return ListV(items=tuple(Const(x) for x in sorted(set(vs_) if isinstance(args[0], SetV) else vs_)), kind="list")
         if fn in ("reversed", "sorted"):
             lst = self.to_list(args[0], "list", node)
             if isinstance(lst, ListV):
@@ -454,6 +458,11 @@ class TorchCalls(TorchOps):
         if isinstance(v, ListV):
             return replace(v, kind=kind)
         if isinstance(v, SetV):
+            ints = [self.const_int(x) if not (isinstance(x, Const) and isinstance(x.v, bool)) and isinstance(x, (Const, TV)) else None for x in (v.items or ())]
+            if v.items is not None and all(i is not None for i in ints) and len(set(ints)) > 1:
+                # a set of several integers walked in iteration order: hash-table order, not numeric order (list({0, 5, 10, 12}) == [0, 10, 12, 5])
+                self.ev("int_set_order", node, items=sorted(set(ints)))
+                return ListV(items=None, elem=TV(kind="pyint", origin=frozenset(["set-order"]), note="set-order"), kind=kind, order=(("set-order",), "unordered"))
             if v.items is not None:
                 return ListV(items=v.items, kind=kind, order=(tuple(sorted(v.atoms)), "unordered") if v.atoms else None)
             return ListV(items=None, elem=v.elem, kind=kind, order=(tuple(sorted(v.atoms)), "unordered"))
@@ -513,7 +522,7 @@ class TorchCalls(TorchOps):
         if e is None:
             return self.unk("sum of unknown elements", node)
         # symmetric reduction over the enumerated axis
-        return e.but(poly=None, size_of=None, idx_of=None, kind="pyint" if e.kind == "pybool" else e.kind)
+        return e.but(poly=None, size_of=None, idx_of=None, kind="pyint" if e.kind == "pybool" else e.kind, note="numel-total" if e.note in ("numel", "nelement") else e.note)
 
     def make_dict(self, args, kwargs, node, ordered):
         if not args:
